@@ -15,8 +15,16 @@ func (f *Frame) lookupLocal(name string, at *ssa.BasicBlock, st *State) (Val, bo
 	if f.fn == nil {
 		return Val{}, false
 	}
+	spilled := false
+	if at != nil {
+		for _, d := range f.locals[name] {
+			if d.addr {
+				spilled = true // the parameter lives in a local variable that the body may assign: use its current value
+			}
+		}
+	}
 	for _, p := range f.fn.Params {
-		if p.Name() == name {
+		if p.Name() == name && !spilled {
 			if v, ok := f.vals[p]; ok {
 				return v, true
 			}
@@ -241,7 +249,38 @@ func (f *Frame) applyContract(cur *blockCur, in ssa.Instruction, con *Contract, 
 	}
 	// results
 	res := f.freshVal(rt, hint)
+	if con.Pure && callee != nil {
+		pv := c.pureApp(callee, args, rt)
+		res = Val{T: rt, S: c.define(hint+"_pure", c.so.sortOf(rt), pv.S)}
+	}
 	cur.assume(f.typeInv(res))
+	// a callee that may panic under a stated condition: the caller must be allowed to panic then
+	if len(con.PanicsWhen) > 0 {
+		var alts []string
+		for _, cl := range con.PanicsWhen {
+			t, err := env.evalBool(cl.Expr)
+			if err != nil {
+				f.unsupported("panics-when of %s: %v", calleeName, err)
+			}
+			alts = append(alts, t)
+		}
+		pe := or(alts...)
+		allowed := "false"
+		root := f
+		for root.callerFrame != nil {
+			root = root.callerFrame
+		}
+		if root.con != nil && len(root.con.PanicsWhen) > 0 {
+			var ra []string
+			for _, cl := range root.con.PanicsWhen {
+				ra = append(ra, root.evalClauseAt(cl, nil, root.entry, nil))
+			}
+			allowed = or(ra...)
+		}
+		f.c.addObligation(&Obligation{Name: f.oblName("panic", "call "+calleeName), Class: "panic", Props: f.panicProps(), Guard: cur.reach,
+			Goal: implies(pe, allowed), Pos: c.eng.posString(in.Pos()), Src: "callee " + calleeName + " panics when " + con.PanicsWhen[0].Text})
+		cur.assume(not(pe))
+	}
 	penv := env.clone()
 	penv.st = post
 	penv.old = pre
@@ -425,6 +464,21 @@ func (e *Engine) verifyFunc(con *Contract) *FuncResult {
 		}
 	}
 	f.entry = st
+	func() {
+		defer func() {
+			if r := recover(); r != nil {
+				if u, ok := r.(unsupportedErr); ok {
+					res.Err = u
+					return
+				}
+				panic(r)
+			}
+		}()
+		facts = append(facts, f.assumeGlobals(st)...)
+	}()
+	if res.Err != nil {
+		return res
+	}
 	entry := c.define("entry_ti", "Bool", and(facts...))
 	// requires
 	var reqs []string
